@@ -16,6 +16,8 @@ simple_batch (utilities 1-D)
 import ast
 import z3
 
+from pyvc import cex
+
 from pyvc.se import (State, ArrData, ListData, ObjData, RngData, Opaque, Ref, LoopSpec, Engine, fresh, fresh_fn, fresh_sel,
                      to_real, to_int, I, R, B, is_z3, Unsupported, z3bool, mk_fv, _Raise)
 from pyvc.unit import se_unit, returns, raises, get_repo
@@ -58,6 +60,7 @@ def unit_rand_arg(which, axis=None):
             j = z3.Int("j")
             en, ev = to_real(a.sel(j))
             st.assume(z3.Exists([j], z3.And(0 <= j, j < n, z3.Not(en))))        # requires: some non-NaN entry
+            E.default_concretize = lambda ev: {"family": "rand_arg", "fn": which, "sig": "counter-model", "a": cex.arr(ev, a)}
             return {"args": [st.alloc(a), rng], "a": a, "n": n, "kwargs": {}}
         m = z3.Int("m")
         st.assume(m >= 1)
@@ -65,6 +68,7 @@ def unit_rand_arg(which, axis=None):
         i, j = z3.Ints("i j")
         en, ev = to_real(a.sel(i, j))
         st.assume(z3.ForAll([i], z3.Implies(z3.And(0 <= i, i < n), z3.Exists([j], z3.And(0 <= j, j < m, z3.Not(en))))))
+        E.default_concretize = lambda ev: {"family": "rand_arg", "fn": which, "axis": 1, "sig": "counter-model", "a": cex.arr(ev, a)}
         return {"args": [st.alloc(a), rng], "a": a, "n": n, "m": m, "kwargs": {"axis": 1}}
 
     def post(E, ctx, outs):
